@@ -611,6 +611,14 @@ func (o *orbitDB) Open(ctx context.Context, dbAddress string, options *CreateDBO
 		return nil, fmt.Errorf("unable to unmarshal manifest: %w", err)
 	}
 
+	// the address names the database its manifest describes: behind the hash of
+	// a manifest only the name recorded in it is an address, anything else
+	// would open as a database of its own (its own log, cache and topic) that
+	// no name, type and access controller lead to
+	if named, err := address.Parse(path.Join("/orbitdb", parsedDBAddress.GetRoot().String(), manifest.Name)); err != nil || named.String() != parsedDBAddress.String() {
+		return nil, fmt.Errorf("manifest '%s' cannot be opened as '%s'", manifest.Name, parsedDBAddress.GetPath())
+	}
+
 	o.logger.Debug("Creating store instance")
 
 	options.AccessControllerAddress = manifest.AccessController
